@@ -26,7 +26,14 @@ def _record(rs):
     from sim.kernel import substream
 
     r = substream(rs, "c18cfg")
-    d = worlds.record_session(rs, {"configs": r.random() < 0.4, "par": r.random() < 0.2, "max_ops": r.choice([4, 7, 10]), "min_ops": 3,
+    extra = {}
+    if r.random() < 0.6:
+        extra["closing_ops"] = ["inline", "inline_window", "simplify"]
+    if r.random() < 0.5:
+        from sim.gen_prog import G
+
+        extra["stratum"] = list(r.choice(G.strata(with_cfg=False, generic=False)))
+    d = worlds.record_session(rs, {**extra, "configs": r.random() < 0.4, "par": r.random() < 0.2, "max_ops": r.choice([4, 7, 10]), "min_ops": 3,
                                    "weights": {"inline": 5, "inline_window": 4, "simplify": 5, "replace": 3, "divide_loop": 3, "extract_subproc": 3,
                                                "unroll_buffer": 3, "set_memory": 2, "bind_expr": 2, "stage_mem": 2}})
     return {"data": d, "digest": "rec"}
@@ -63,7 +70,7 @@ def main():
     seed = base_seed()
     rep = common.Report(PROP, args.tier, seed)
     quick = args.tier == "quick"
-    n_sessions = args.runs or (60 if quick else 600)
+    n_sessions = args.runs or (90 if quick else 900)
     n_worlds = 3 if quick else 6
     hashseeds = HASHSEEDS[args.tier]
     t0 = time.time()
